@@ -27,7 +27,9 @@ class IdleLoop(asyncio.SelectorEventLoop):
         if not self._ready and self.on_idle is not None:
             ev = self._selector.select(0)
             if ev:
-                self._process_events(ev)
+                # I/O is pending (e.g. inotify): let the base class pick it up with its own select,
+                # so that every ready descriptor is dispatched exactly once
+                return super()._run_once()
             if not self._ready:
                 progressed = self.on_idle()
                 if not progressed and not self._ready:
